@@ -38,6 +38,28 @@ def parse_cfg(line: str) -> dict[str, Any]:
             "variant": variant}
 
 
+_STOP_FIX: bool | None = None
+
+
+def stop_fix_present() -> bool:
+    """Does the code under test contain fixes/C10-dispose-instances-on-stop.diff?  Probed by behaviour: a request with
+    rejected arguments leaves no instance behind.  (The model has both variants, `Cfg.fixStop`; stored cases carry
+    two variant digits and get the third one from here.)"""
+    global _STOP_FIX
+    if _STOP_FIX is None:
+        out = run_case([cfg_line({"dur": [6, 1, 1, 1], "fail": [-1, -1, -1, -1], "overlaps": []}),
+                        "user\tstart", "tick", "req\t0\tbad", "tick"])
+        _STOP_FIX = " in=- " in out[-1]
+    return _STOP_FIX
+
+
+def model_lines(case: list[str]) -> list[str]:
+    """The case as the model driver gets it: the cfg line's variant completed by the fixStop digit."""
+    if case and case[0].startswith("cfg\t") and len(case[0].rsplit("\t", 1)[-1]) == 2:
+        return [case[0] + ("1" if stop_fix_present() else "0")] + list(case[1:])
+    return list(case)
+
+
 def cfg_line(spec: dict[str, Any], variant: str = "11") -> str:
     ovl = ";".join(",".join(str(x) for x in g) for g in spec["overlaps"]) or "-"
     return "cfg\t" + ",".join(str(x) for x in spec["dur"]) + "\t" + ",".join(str(x) for x in spec["fail"]) + \
